@@ -63,6 +63,7 @@ finally:
     subprocess.run(['/venv/bin/python', os.path.join(ROOT, 'tools', 'pysrc2lean_helpers.py'), '/repo', os.path.join(ROOT, 'lean', 'UbxModel', 'Gen', 'SrcHelpers.lean')], capture_output=True)
     subprocess.run(['/venv/bin/python', os.path.join(ROOT, 'tools', 'pysrc2lean_render.py'), '/repo', os.path.join(ROOT, 'lean', 'UbxModel', 'Gen', 'SrcRender.lean')], capture_output=True)
     subprocess.run(['/venv/bin/python', os.path.join(ROOT, 'tools', 'pysrc2lean_gpsd.py'), '/repo', os.path.join(ROOT, 'lean', 'UbxModel', 'Gen', 'SrcGpsd.lean')], capture_output=True)
+    subprocess.run(['/venv/bin/python', os.path.join(ROOT, 'tools', 'pysrc2lean_gpsdtx.py'), '/repo', os.path.join(ROOT, 'lean', 'UbxModel', 'Gen', 'SrcGpsdTx.lean')], capture_output=True)
     subprocess.run(['/venv/bin/python', os.path.join(ROOT, 'tools', 'pysrc2lean_keystr.py'), '/repo', os.path.join(ROOT, 'lean', 'UbxModel', 'Gen', 'SrcKeyStr.lean')], capture_output=True)
     subprocess.run(['/venv/bin/python', os.path.join(ROOT, 'tools', 'pysrc2lean_str.py'), '/repo', os.path.join(ROOT, 'lean', 'UbxModel', 'Gen', 'SrcStr.lean')], capture_output=True)
     subprocess.run(['/venv/bin/python', os.path.join(ROOT, 'tools', 'pysrc2lean_fields.py'), '/repo', os.path.join(ROOT, 'lean', 'UbxModel', 'Gen', 'SrcFields.lean')], capture_output=True)
